@@ -260,22 +260,34 @@ def layout(prog: Dict[str, Any]) -> Dict[str, Any]:
     return {"recs": recs, "labels": labels}
 
 
-def near_expectations(prog: Dict[str, Any], lay: Dict[str, Any]) -> Tuple[List[int], List[int]]:
-    """(indices of near JP/CALL statements whose symbolic target is on another page, indices of ambiguous ones).
+def near_expectations(prog: Dict[str, Any], lay: Dict[str, Any]) -> Tuple[List[int], List[int], List[int]]:
+    """(indices of near JP/CALL statements whose symbolic target is on another page, indices of ambiguous ones,
+    indices of near JP/CALL statements whose LITERAL target names another page).
 
     Ambiguous = the instruction straddles a 64 KiB boundary (the statement does not say which page counts).
+    A numeric target <= 0xFFFF is page-relative (the maintainers' low-16 form, test
+    `..._same_page_high_org_low16_literal`) and can never name another page; a numeric target with page bits is the
+    value a label would have, i.e. "the instruction with its symbol replaced by its value", and falls under the
+    page rule like the label does.
     """
     cross: List[int] = []
     ambiguous: List[int] = []
+    cross_lit: List[int] = []
     for rec in lay["recs"]:
         ln = prog["lines"][rec["idx"]]
         stmt = ln.get("stmt")
         if not stmt or stmt["t"] != "instr" or not S.is_near(stmt["shape"]):
             continue
         op = stmt["ops"][0]
-        if "sym" not in op:
-            continue
         a = rec["addr"]
+        if "sym" not in op:
+            num = int(op["num"])
+            if num > 0xFFFF:
+                if (a >> 16) != ((a + rec["size"]) >> 16):
+                    ambiguous.append(rec["idx"])
+                elif (num >> 16) != (a >> 16):
+                    cross_lit.append(rec["idx"])
+            continue
         if (a >> 16) != ((a + rec["size"]) >> 16):
             ambiguous.append(rec["idx"])
             continue
@@ -284,7 +296,23 @@ def near_expectations(prog: Dict[str, Any], lay: Dict[str, Any]) -> Tuple[List[i
             continue
         if (tgt["value"] >> 16) != (a >> 16):
             cross.append(rec["idx"])
-    return cross, ambiguous
+    return cross, ambiguous, cross_lit
+
+
+def near_symbols_as_literals(prog: Dict[str, Any], lay: Dict[str, Any]) -> Dict[str, Any]:
+    """The same program with every symbolic near JP/CALL target above 0xFFFF replaced by the hex literal of the
+    label's model address (the labels stay defined).  Labels on page 0 stay symbolic: their value written as a
+    number is the page-relative low-16 form, which is a different instruction on a high page."""
+    import copy
+
+    out = copy.deepcopy(prog)
+    for ln in out["lines"]:
+        stmt = ln.get("stmt")
+        if stmt and stmt["t"] == "instr" and S.is_near(stmt["shape"]) and "sym" in stmt["ops"][0]:
+            tgt = lay["labels"].get(stmt["ops"][0]["sym"].upper())
+            if tgt is not None and int(tgt["value"]) > 0xFFFF:
+                stmt["ops"][0] = {"num": int(tgt["value"]), "style": 0}
+    return out
 
 
 # ------------------------------------------------------------------------------------------------ running
@@ -365,7 +393,7 @@ def check_program(prog: Dict[str, Any], stats: Optional[Dict[str, int]] = None) 
 
     src, line_of = render_program(prog, split_pairs=True)
     lay = layout(prog)
-    cross, ambiguous = near_expectations(prog, lay)
+    cross, ambiguous, cross_lit = near_expectations(prog, lay)
     res = fresh_assemble(src)
     lines = prog["lines"]
 
@@ -373,14 +401,29 @@ def check_program(prog: Dict[str, Any], stats: Optional[Dict[str, int]] = None) 
         bump("page-ambiguous-program")
         return viols  # no expectation either way for a near jump that straddles a page boundary
 
-    if cross:
+    if cross or cross_lit:
         bump("expect-reject")
+        if cross_lit:
+            bump("expect-reject-literal")
+        first = min(cross + cross_lit)
         if res["ok"]:
-            V("page-rule", "near JP/CALL target", "near target on another 64 KiB page accepted",
-              f"statement {cross[0]} ({stmt_text(lines[cross[0]]['stmt'])}) at {lay['recs'][cross[0]]['addr']:#x}"
+            V("page-rule", "near JP/CALL target" if first in cross else "near JP/CALL literal target",
+              "near target on another 64 KiB page accepted",
+              f"statement {first} ({stmt_text(lines[first]['stmt'])}) at {lay['recs'][first]['addr']:#x}"
               f" targets another page but the program assembled")
         elif "not on current page" not in res["error"]:
             bump("reject-for-other-reason")
+        elif (any(lay["labels"][lines[i]["stmt"]["ops"][0]["sym"].upper()]["value"] > 0xFFFF for i in cross)
+              and not any(lab["pre_location"] or lab["bss_rel"] for lab in lay["labels"].values())):
+            # The rejected program with its near target labels replaced by their values (statement: an instruction
+            # behaves like itself "with its symbols replaced by their values") must be rejected as well.
+            bump("expect-reject-literal-form")
+            res2 = fresh_assemble(render_program(near_symbols_as_literals(prog, lay), split_pairs=True)[0])
+            if res2["ok"]:
+                V("page-rule", "near JP/CALL literal target",
+                  "near target on another 64 KiB page accepted once the label is replaced by its value",
+                  f"statement {cross[0]} ({stmt_text(lines[cross[0]]['stmt'])}) at "
+                  f"{lay['recs'][cross[0]]['addr']:#x}: label form rejected, literal form assembled")
         return viols
 
     if not res["ok"]:
@@ -390,7 +433,11 @@ def check_program(prog: Dict[str, Any], stats: Optional[Dict[str, int]] = None) 
         if "not on current page" in res["error"]:
             V("page-rule", "near JP/CALL target", "near target on the same 64 KiB page rejected", res["error"].splitlines()[0])
         else:
-            kind = lines[line_of[n]]["stmt"]["t"] if (n in line_of and lines[line_of[n]].get("stmt")) else "program"
+            st_ = lines[line_of[n]].get("stmt") if n in line_of else None
+            kind = st_["t"] if st_ else "program"
+            if (kind == "instr" and S.is_near(st_["shape"]) and "num" in st_["ops"][0]
+                    and int(st_["ops"][0]["num"]) > 0xFFFF):
+                kind = "near JP/CALL with a same-page literal target above 0xFFFF"
             V("accept", "instruction statement" if kind == "instr" else kind, sym,
               f"{where}: " + res["error"].splitlines()[0][:200])
         return viols
@@ -491,6 +538,18 @@ def check_program(prog: Dict[str, Any], stats: Optional[Dict[str, int]] = None) 
                   f"line {rec['idx']} '{stmt_text(stmt)}' at {a:#x}: image {bytes(got).hex()}, alone ('{text}') {exp.hex()}")
             # label references: operand field carries the symbol value
             for op, slot in zip(stmt["ops"], info["slots"]):
+                if "sym" not in op and slot["kind"] == "J" and slot["field"]:
+                    # near target written as a number: low-16 form or full same-page address, the field holds the
+                    # low 16 bits either way (tests ..._high_org and ..._high_org_low16_literal give the same bytes)
+                    bump("near-literal")
+                    val = 0
+                    for j_, j in enumerate(slot["field"]):
+                        val |= got[j] << (8 * j_)  # type: ignore[operator]
+                    if val != (int(op["num"]) & slot["mask"]):
+                        V("label-ref", "near JP/CALL literal target",
+                          "operand field does not hold the low 16 bits of the literal target",
+                          f"line {rec['idx']} '{stmt_text(stmt)}' at {a:#x}: field {val:#x}")
+                    continue
                 if "sym" not in op or not slot["field"]:
                     continue
                 bump("label-ref")
